@@ -159,7 +159,10 @@ func runC01(c *Case, out func(string)) {
 			if flushedOnce && written[string(k)] {
 				nOverwriteOlder++
 			}
-			if err := e.Put(k, v); err != nil {
+			hk, hv := handOver(k), handOver(v)
+			err := e.Put(hk, hv)
+			scribbleAll(hk, hv) // a client that reuses its buffers
+			if err != nil {
 				out("W err:" + werrShort(err))
 			} else {
 				apply([]bop{{k: k, v: v}})
@@ -171,7 +174,10 @@ func runC01(c *Case, out func(string)) {
 			if flushedOnce && written[string(k)] {
 				nOverwriteOlder++
 			}
-			if err := e.Delete(k); err != nil {
+			hk := handOver(k)
+			err := e.Delete(hk)
+			scribbleAll(hk)
+			if err != nil {
 				out("W err:" + werrShort(err))
 			} else {
 				apply([]bop{{del: true, k: k}})
